@@ -205,7 +205,8 @@ Definition i32b (x : Z) : bool := (-2147483648 <=? x) && (x <=? 2147483647).
 Definition u8b (x : Z) : bool := (0 <=? x) && (x <=? 255).
 (** a Rust `String`: bytes, valid UTF-8 *)
 Definition str_okb (s : bytes) : bool := forallb u8b s && utf8_valid s.
-(** a real-valued field the property speaks about: a double inside the GDSII real range, or a zero *)
+(** a real-valued field the property speaks about: a double inside the GDSII real range
+    ([in_gds_rangeb]: 16^-65 <= |x| < 16^63, every normalised real), or a zero *)
 Definition real_okb (x : Z) : bool := (0 <=? x) && (x <? two64) && (in_gds_rangeb x || f64_is_zero x).
 
 Definition opt_okb {A} (ok : A -> bool) (a : option A) : bool :=
